@@ -8,6 +8,8 @@ import P0f.Model.Wire
 import P0f.Model.Render
 import P0f.Model.Mtu
 import P0f.Model.Http
+import P0f.Model.DbParse
+import P0f.Model.Api
 /-
   Line-protocol driver: one tab-separated op per input line, one answer line per op.
   Every op is answered by the *model* definitions that the theorems in `P0f/Props` are about.
@@ -93,6 +95,91 @@ def optBytesStr : Option Bytes → String
 def httpSigStr (s : HttpSig) : String :=
   s!"v={optNatStr s.version} h=[{",".intercalate (s.headers.map fun h => (if h.optional then "?" else "") ++ hexOfText h.name ++ optBytesStr h.value)}] " ++
   s!"absent=[{",".intercalate (s.absent.map hexOfText)}] sw={optBytesStr s.software}"
+
+/-! ### database / history ops -/
+
+def labelStr : Option DbLabel → String
+  | none => "nolabel"
+  | some (.mtu n) => s!"m{hexOfText n}"
+  | some (.os l sys) =>
+    s!"l{hexOfText l.dump}/{if l.generic then 1 else 0}/{if l.isUserApp then 1 else 0}/sys{sys.length}:{",".intercalate (sys.map hexOfText)}"
+
+def dbSigStr : DbSig → String
+  | .mtu m => s!"M{m}"
+  | .tcp s => "T(" ++ sigStr s ++ ")"
+  | .http s => "H(" ++ httpSigStr s ++ ")"
+
+def recStr (r : DbRec) : String := s!"{r.line}~{labelStr r.label}~{hexOfText r.raw}~{dbSigStr r.sig}"
+
+def secStr (db : Db) (s : Section) : String :=
+  match db s with
+  | none => "-"
+  | some l => "[" ++ ";".intercalate (l.map recStr) ++ "]"
+
+def dbStr (db : Db) : String :=
+  s!"len={db.len} mtu={secStr db .mtu} tcpreq={secStr db .tcpReq} tcpresp={secStr db .tcpResp} httpreq={secStr db .httpReq} httpresp={secStr db .httpResp}"
+
+def loadErrStr : LoadErr → String
+  | .parsing n => s!"ERR parsing {n}"
+  | .database => "ERR database"
+  | .indexError => "EXC IndexError"
+
+def apiErrStr : ApiErr → String
+  | .packet => "ERR packet"
+  | .database => "ERR database"
+
+def fileArgOf (s : String) : FileArg :=
+  if s.startsWith "!" || s.startsWith "x" then .unreadable else .text (parseHexText s)
+
+def decodeAny (ver : String) (hex : String) : Option PktL :=
+  let b := parseHex hex
+  if ver == "4" then decodeV4 b else decodeV6 b
+
+/-- one step of a `hist` op: new live database and the answer -/
+def histStep (db : Db) (step : String) : Db × String :=
+  let a := (step.splitOn ":").toArray ++ Array.replicate 8 ""
+  match a[0]! with
+  | "L" =>
+    match apiStep db (.load (fileArgOf a[1]!)) with
+    | (db', .loaded) => (db', "ok during=ok")
+    | (db', .loadErr e) => (db', loadErrStr e ++ " during=ok")
+    | (db', _) => (db', "?")
+  | "D" => (db, dbStr db)
+  | "N" => (db, s!"len={db.len}")
+  | "T" =>
+    match decodeAny a[1]! a[2]! with
+    | none => (db, "SKIP illframed")
+    | some p =>
+      match apiFpTcp db p (parseNat a[3]!) (parseInt a[4]!) with
+      | .error e => (db, apiErrStr e)
+      | .ok (none, dist) => (db, s!"none {dist}")
+      | .ok (some (mt, r), dist) => (db, s!"{r.line} {mtStr (some mt)} {dist}")
+  | "M" =>
+    match decodeAny a[1]! a[2]! with
+    | none => (db, "SKIP illframed")
+    | some p =>
+      match apiFpMtu db p with
+      | .error e => (db, apiErrStr e)
+      | .ok (mtu, m) => (db, s!"mtu={mtu} match={match m with | none => "none" | some l => toString l}")
+  | "H" =>
+    match apiFpHttp db (parseHexText a[1]!) with
+    | .error e => (db, apiErrStr e)
+    | .ok (isReq, minor, m, dis) =>
+      (db, s!"{if isReq then "req" else "resp"} {minor} match={match m with | none => "none" | some r => toString r.line} dishonest={if dis then 1 else 0}")
+  | "R" =>
+    let k : RecKind := match a[1]! with | "m" => .mtu | "t" => .tcp | _ => .http
+    let d : Option Dir := match a[2]! with | "q" => some .req | "s" => some .resp | _ => none
+    match db.candidates (parseHexText a[3]!) k d with
+    | .error e => (db, loadErrStr e)
+    | .ok l => (db, s!"cands=[{natList (l.map (·.line))}]")
+  | "I" => (db, "-")
+  | _ => (db, "?step")
+
+def histRun (db : Db) : List String → List String → List String
+  | [], acc => acc.reverse
+  | s :: ss, acc =>
+    let (db', a) := histStep db s
+    histRun db' ss (a :: acc)
 
 def handle (f : Array String) : String :=
   match f[0]! with
@@ -232,6 +319,10 @@ def handle (f : Array String) : String :=
     match parseTcpSig text with
     | none => s!"{String.ofList text} -> ERR field"
     | some s => s!"{String.ofList text} -> [{natList s.layout}] pad={s.eolPad} q={s.quirks.toMask}"
+  | "db" =>
+    " ; ".intercalate (histRun Db.empty ["L:" ++ f[1]!, "D"] [])
+  | "hist" =>
+    " ; ".intercalate (histRun Db.empty ((f.toList.drop 1).filter (· != "")) [])
   | op => s!"ERR unknown-op {op}"
 
 partial def loop (h : IO.FS.Stream) (out : IO.FS.Stream) : IO Unit := do
